@@ -109,9 +109,17 @@ Definition all_even (offs : list nat) : bool := forallb Nat.even offs.
 
 Lemma ll_terms_cons2 : forall vals a b t,
   ll_terms vals (a :: b :: t) =
-  ll_inner vals (range2_count (a + 2) b) (a + 2) (vget vals a) (vget vals (a + 1))
+  (if Nat.ltb (b - a) 4 then []
+   else ll_inner vals (range2_count (a + 2) b) (a + 2) (vget vals a) (vget vals (a + 1)))
   ++ ll_terms vals (b :: t).
 Proof. reflexivity. Qed.
+
+(* a ring of fewer than two vertices has no segment *)
+Lemma ring_terms_short : forall r, length r < 4 -> ring_terms r = [].
+Proof.
+  intros r H. unfold ring_terms.
+  destruct r as [|x [|y [|z [|w t]]]]; cbn in H; try lia; reflexivity.
+Qed.
 
 Lemma segs_cons2 : forall A (vals : list A) a b t,
   segs vals (a :: b :: t) = slice a b vals :: segs vals (b :: t).
@@ -143,8 +151,11 @@ Proof.
   destruct t as [|b t']; [reflexivity|].
   destruct (offs_step a b t' _ Hm Hev Hl) as (Hab & Hb & Eab & Hm' & Hev' & Hl').
   rewrite ll_terms_cons2, segs_cons2. cbn [map concat].
-  rewrite ll_ring_slice by assumption.
-  rewrite IH by assumption. reflexivity.
+  rewrite IH by assumption. f_equal.
+  destruct (Nat.ltb (b - a) 4) eqn:E4.
+  - apply Nat.ltb_lt in E4. symmetry. apply ring_terms_short.
+    rewrite slice_length by assumption. exact E4.
+  - apply ll_ring_slice; assumption.
 Qed.
 
 Theorem compute_length_rings : forall vals offs,
